@@ -326,6 +326,8 @@ def api(ctx, rule="C01.api"):
 
 
 def rules(ctx):
+    from . import c02
+    c02.dagger_products(ctx, "C01.decomp-products")
     layout(ctx)
     api(ctx)
     G.dead_stores(ctx, "C01.gauss-deadstore")
